@@ -98,6 +98,20 @@ impl Val {
             other => other.clone(),
         }
     }
+    /// Shift every span (not slice addresses) by `d`: re-bases values produced inside a nested input.
+    pub fn shift_spans(&self, d: usize) -> Val {
+        match self {
+            Val::Node { id, lo, hi, v } => Val::Node { id: *id, lo: lo + d, hi: hi + d, v: Box::new(v.shift_spans(d)) },
+            Val::Seq(v) => Val::Seq(v.iter().map(|x| x.shift_spans(d)).collect()),
+            Val::Opt(o) => Val::Opt(o.as_ref().map(|x| Box::new(x.shift_spans(d)))),
+            Val::Pair(a, b) => Val::pair(a.shift_spans(d), b.shift_spans(d)),
+            Val::Tag(i, v) => Val::Tag(*i, Box::new(v.shift_spans(d))),
+            Val::Span(lo, hi) => Val::Span(lo + d, hi + d),
+            Val::FoldW { lo, lo2, hi, acc, x } => Val::FoldW { lo: lo + d, lo2: lo2 + d, hi: hi + d, acc: Box::new(acc.shift_spans(d)), x: Box::new(x.shift_spans(d)) },
+            Val::Obs { id, n, h, ctx } => Val::Obs { id: *id, n: *n, h: *h, ctx: Box::new(ctx.shift_spans(d)) },
+            other => other.clone(),
+        }
+    }
     /// Apply `f` to every offset in the value (model token indices -> kind offsets).
     pub fn map_offsets(&self, f: &dyn Fn(usize, usize) -> (usize, usize)) -> Val {
         match self {
